@@ -11,6 +11,7 @@ package netutil
 //@ -- net.SplitHostPort rejects is returned unchanged
 //@ func StripHostPort props C09 pure
 //@   ensures empty: len(h) == 0 ==> len(result) == 0
+//@   ensures shorter: len(result) <= len(h)
 //@   ensures no-colon-dot: len(h) > 0 && (forall i int :: {h[i]} 0 <= i && i < len(h) ==> h[i] != ':') && h[len(h)-1] == '.' ==> result == h[:len(h)-1]
 //@   ensures no-colon: len(h) > 0 && (forall i int :: {h[i]} 0 <= i && i < len(h) ==> h[i] != ':') && h[len(h)-1] != '.' ==> result == h
 
